@@ -350,7 +350,7 @@ def with_deadline(rng, scripts):
     return out
 
 
-def judge_direct(ctx, scripts, binp, both):
+def judge_direct(ctx, scripts, binp, both, label="deadline (WithTimeout), direct oracle only"):
     """ls.judge without the model comparison (the oracle's lock-step model has no deadline contexts): run on the
     implementation, crash attribution, direct oracle"""
     obs, crashes = ls.run_scripts(ctx, binp, scripts)
@@ -359,7 +359,7 @@ def judge_direct(ctx, scripts, binp, both):
             txt = crashes[i]
             cls = "deadlock" if "deadlock" in txt else ("panic" if "panic" in txt else "crash")
             m = re.search(r"panic: ([^\n]*)", txt)
-            ctx.violations.append(vlib.Violation("impl", "pipe.Throttling (context with deadline): the library crashed: %s" % (m.group(1) if m else cls), case=s,
+            ctx.violations.append(vlib.Violation("impl", "pipe.Throttling (%s): the library crashed: %s" % (label, m.group(1) if m else cls), case=s,
                                                  got=txt[-1500:], key={"stage": STAGE, "pkg": "pipe", "class": cls}))
             continue
         if obs[i] is None:
@@ -370,7 +370,7 @@ def judge_direct(ctx, scripts, binp, both):
             ctx.broken.append({"kind": "correspondence", "detail": "observation line does not match the script", "case": s, "impl": " ".join(obs[i])[:2000]})
             continue
         ctx.cov["direct_oracle_only"] = ctx.cov.get("direct_oracle_only", 0) + 1
-        ctx.hist("context", "deadline (WithTimeout), direct oracle only")
+        ctx.hist("context", label)
         ctx.violations += both(s, tr)
         ctx.count(s, nontrivial=bool(tr.recv))
         if i % 97 == 0:
@@ -415,6 +415,10 @@ def run(ctx):
         # the caller's context may carry a deadline: the rate bound holds up to the moment it passes
         dsc = with_deadline(ctx.rng, gen_scripts(ctx.rng, 3000 if ctx.thorough() else 400) + [worst_burst(o, c, 100) for o in (1, 2, 3) for c in (0, 1, 2)])
         judge_direct(ctx, dsc, binp, both)
+        # calls are independent: the same scripts in a process where another Throttling was cancelled in mid-interval
+        # and a third one is busy on its own context (go/harness/lockstep/throttle_test.go, mode=hist)
+        hsc = [s.replace(" | ", " mode=hist | ", 1) for s in gen_scripts(ctx.rng, 1500 if ctx.thorough() else 250)]
+        judge_direct(ctx, hsc, binp, both, label="another Throttling cancelled in mid-interval before, a third one busy (direct oracle only)")
         if ctx.violations:
             # report the smallest script on which the implementation still violates the property
             ctx.violations.sort(key=lambda v: len(v.case or ""))
